@@ -59,6 +59,10 @@ INVALID = [
     ("copy-array-into-structure-literal-argument", "struct S\n{{\n\tarr: [2]{t},\n\tn: {t},\n}}\nfn g(s: S) -> {t}\n{{\n\treturn: s.arr[1]\n}}\nfn main() -> u8\n{{\n\tvar a: [2]{t} = [1, 2];\n\tvar r = g(S {{ arr: a, n: 1 }});\n\treturn: 0\n}}\n", "531"),
     ("copy-array-into-structure-literal-argument-after-call", "struct S\n{{\n\tn: {t},\n\tarr: [2]{t},\n}}\nfn id(x: {t}) -> {t}\n{{\n\treturn: x\n}}\nfn g(s: S) -> {t}\n{{\n\treturn: s.arr[1]\n}}\nfn main() -> u8\n{{\n\tvar a: [2]{t} = [1, 2];\n\tvar r = g(S {{ n: id(1), arr: a }});\n\treturn: 0\n}}\n", "531"),
     ("copy-array-into-structure-literal", "struct S\n{{\n\tarr: [2]{t},\n}}\nfn main() -> u8\n{{\n\tvar a: [2]{t} = [1, 2];\n\tvar s = S {{ arr: a }};\n\treturn: 0\n}}\n", "531"),
+    ("copy-struct-into-constant", "struct S\n{{\n\tm: {t},\n\tn: {t},\n}}\nconst ORIGIN: S = S {{ m: 3, n: 4 }};\nconst START: S = ORIGIN;\nfn main() -> u8\n{{\n\treturn: 0\n}}\n", "533"),
+    ("copy-array-into-constant", "const TABLE: [2]{t} = [3, 4];\nconst COPY: [2]{t} = TABLE;\nfn main() -> u8\n{{\n\treturn: 0\n}}\n", "531"),
+    ("copy-struct-member-into-constant", "struct S\n{{\n\tm: {t},\n}}\nstruct W\n{{\n\ts: S,\n}}\nconst ORIGIN: S = S {{ m: 3 }};\nconst WRAP: W = W {{ s: ORIGIN }};\nfn main() -> u8\n{{\n\treturn: 0\n}}\n", "533"),
+    ("assign-to-local-view", "fn main() -> u8\n{{\n\tvar a: [2]{t} = [1, 2];\n\tvar x: []{t} = a;\n\tx[0] = 1;\n\treturn: 0\n}}\n", None),
     ("copy-struct", "struct S\n{{\n\tm: {t},\n}}\nfn main() -> u8\n{{\n\tvar s = S {{ m: 2 }};\n\tvar r = S {{ m: 3 }};\n\tr = s;\n\treturn: 0\n}}\n", "533"),
     ("missing-address-pointer", "fn bump(q: &{t})\n{{\n\tq = q + 1;\n}}\nfn main() -> u8\n{{\n\tvar v: {t} = 1;\n\tbump(v);\n\treturn: 0\n}}\n", "513"),
     ("missing-address-slice-pointer", "fn fill(p: &[]{t})\n{{\n\tp[0] = 1;\n}}\nfn main() -> u8\n{{\n\tvar a: [2]{t} = [1, 2];\n\tfill(a);\n\treturn: 0\n}}\n", "513"),
